@@ -101,6 +101,11 @@ TNextExit ==
   /\ Advance(Upd(It, MNextExit(mon[It], E.t)))
   /\ Count("NextExit")
 
+THintRead ==
+  /\ IsEvent("HintRead")
+  /\ Advance(Upd(It, MHintRead(mon[It], E.t, E.busy)))
+  /\ UNCHANGED seen
+
 TDropElem ==
   /\ IsEvent("DropElem")
   /\ Advance(Upd(0, MDropElem(mon[0], E.id, E.ok)))
@@ -154,7 +159,7 @@ Init ==
 
 Next ==
   \/ TReset \/ TCall \/ TRet \/ TVisit \/ TAtomic \/ TNextEnter \/ TNextExit
-  \/ TDropElem \/ TCloneElem \/ TPartial \/ TSrcCheck \/ TMem \/ THang \/ TAbort \/ TEnd
+  \/ THintRead \/ TDropElem \/ TCloneElem \/ TPartial \/ TSrcCheck \/ TMem \/ THang \/ TAbort \/ TEnd
 
 Spec == Init /\ [][Next]_vars
 
